@@ -2089,3 +2089,68 @@ Proof.
            ciphertextBytes evaluatorCiphertextCount round3PayloadLen Ctb Cib Chb Ccb Htot bs m B H) as G.
   unfold EncodeRound3. exact G.
 Qed.
+
+(* ====================================================================== *)
+(* rounds are functions: sessions running in one process are independent.
+   In Gallina the result of a round depends on (state, message, randomness)
+   only, by construction; the statements below spell out what that means for
+   two sessions whose rounds are interleaved and for a retried round 3.  The
+   Go implementation could violate it through aliasing (a Round3Payload
+   pointing into memory that a later Garble reuses): that is what the harness
+   checks ("overlapping-sessions", "round3-retry", "interleaved-sessions"). *)
+Section Independent.
+  Variable RND : Type.
+  Variable c : curve.
+  Variable gen_sender : RND -> N * (N * N) * (N * N).
+  Variable read_sid : RND -> N.
+  Variable build_choices : RND -> N -> N -> list bool -> res (list N * list (N * N)).
+  Variable read_key : RND -> bytes.
+  Variable garble_circ : RND -> bytes -> res (list (N * N) * list (N * N) * list (N * N) * list N).
+  Variable encrypt_co : gsession -> list (N * N) -> list (N * N) -> res (list (N * N)).
+  Variable decrypt_co : esession -> list (N * N) -> res (list N).
+  Variable eval_circ : bytes -> list N -> list N -> list N -> res (list N).
+  Variable decompress : curve -> N -> bool -> option (N * N).
+
+  Notation GR1 := (GarblerRound1 RND c gen_sender read_sid).
+  Notation ER2 := (EvaluatorRound2 RND c build_choices).
+  Notation GR3 := (GarblerRound3 RND read_key garble_circ encrypt_co).
+  Notation ER4 := (EvaluatorRound4 decrypt_co eval_circ).
+  Notation RUN := (run_protocol RND c gen_sender read_sid build_choices read_key garble_circ
+                                encrypt_co decrypt_co eval_circ decompress
+                                0%nat 0%nat 0%nat 0%nat false false false).
+
+  (* two sessions A and B in one process, every round of A followed by the
+     same round of B; both Round3 payloads exist before either is evaluated *)
+  Definition run_two_interleaved (rg1A re2A rg3A : RND) (aA bA : bytes)
+                                 (rg1B re2B rg3B : RND) (aB bB : bytes) : res bytes * res bytes :=
+    let '(m1A, gsA) := GR1 rg1A in
+    let '(m1B, gsB) := GR1 rg1B in
+    let r2A := ER2 re2A m1A bA in
+    let r2B := ER2 re2B m1B bB in
+    let r3A := '(m2, es) <- r2A ;; m3 <- GR3 rg3A gsA aA m2 ;; Ok (es, m3) in
+    let r3B := '(m2, es) <- r2B ;; m3 <- GR3 rg3B gsB aB m2 ;; Ok (es, m3) in
+    let outA := '(es, m3) <- r3A ;; ER4 es m3 in
+    let outB := '(es, m3) <- r3B ;; ER4 es m3 in
+    (outA, outB).
+
+  Theorem sessions_independent rg1A re2A rg3A aA bA rg1B re2B rg3B aB bB :
+    run_two_interleaved rg1A re2A rg3A aA bA rg1B re2B rg3B aB bB
+    = (RUN rg1A re2A rg3A aA bA, RUN rg1B re2B rg3B aB bB).
+  Proof.
+    unfold run_two_interleaved, run_protocol.
+    destruct (GR1 rg1A) as [m1A gsA]. destruct (GR1 rg1B) as [m1B gsB].
+    cbn [iter_res opt_thru bind]. f_equal.
+    - destruct (ER2 re2A m1A bA) as [[m2 es]| |]; cbn [bind]; try reflexivity.
+      destruct (GR3 rg3A gsA aA m2); reflexivity.
+    - destruct (ER2 re2B m1B bB) as [[m2 es]| |]; cbn [bind]; try reflexivity.
+      destruct (GR3 rg3B gsB aB m2); reflexivity.
+  Qed.
+
+  (* a retried round 3 (fresh randomness) does not touch the first payload *)
+  Theorem round3_retry_keeps_first rng rng' st a req es :
+    (let p1 := GR3 rng st a req in
+     let p2 := GR3 rng' st a req in
+     (m <- p1 ;; ER4 es m, m <- p2 ;; ER4 es m))
+    = (m <- GR3 rng st a req ;; ER4 es m, m <- GR3 rng' st a req ;; ER4 es m).
+  Proof. reflexivity. Qed.
+End Independent.
